@@ -155,6 +155,11 @@ def work_def(args):
         res['over_budget'] = not res['mismatches']
         res['over_budget_reason'] = str(e)[:200]
         res['inconclusive'] = None
+        if _G.get('prop') == 'C15' and res['over_budget'] and getattr(h.ex, 'hidden_state', False):
+            # independence of clones cannot be left undecided when next() touches state outside the lexer value
+            res['over_budget'] = False
+            res['inconclusive'] = ('next() reads or writes mutable state outside the lexer value (static atomics / thread-locals) and the solver did not '
+                                   'decide within the budget whether a clone and its original can influence each other: ' + str(e)[:200])
     except Inconclusive as e:
         res['inconclusive'] = str(e)[:1500]
     except Exception as e:
